@@ -67,6 +67,9 @@ def advance_before_read(ctx, db):
                         bad = bad or ('a path answers "suspended" without having advanced and parked the awaiter', tr)
                 if name.endswith('advance_suspend_lk') and rv == 0 and park:
                     bad = bad or ('an awaiter is parked on a path that tells the caller not to suspend', tr)
+                if name.endswith('advance_suspend_lk') and park and not any(it.k == 'branch' and re.search(r'(^|->|\.)_closed$', it.path or '') and it.val is False for it in tr[:park[0]]):
+                    # the publisher may have been closed between await_ready and await_suspend: nobody will ever wake a subscriber parked now
+                    bad = bad or ('an awaiter is parked on a path that did not establish the stream is still open: close() has already woken everybody, this subscriber sleeps for ever', tr)
             if n == 0 and not bad:
                 bad = ('no go-and-read path', [])
             ctx.ob(rid, f, f['key'], bad is None, '%s: position advanced on every go-and-read path' % name.split('::')[-1] + ('' if not bad else ' -- ' + bad[0]), desc=bad[0] if bad else None,
@@ -157,6 +160,30 @@ def window_agreement(ctx, db):
                         lf_ = _lf(a.get('path'))
                         if lf_ and lf_.get('POS') == 1 and lf_.get('REG._pos') == -1:
                             w = lf_
+    # ... for EVERY used registration: a parked subscriber stands on the position of the value it waits for and reads it from the window
+    # when it is woken - leaving it out of the maximum trims away the values of the very publish that wakes it
+    skipped = None
+    for f in db.need('cocls::publisher::queue::push_lk')[:1]:
+        bodies_ = [f] + [lf_ for lf_ in lambdas_of(db, 'cocls::publisher::queue::push_lk')] + [g for g in helper_bodies(db, f) if g is not f]
+        for g in bodies_:
+            for tr in H.traces(g):
+                used = False
+                for it in tr:
+                    if it.k == 'branch' and re.search(r'(\.|->)_used$', it.path or ''):
+                        if used and skipped is None:
+                            skipped = tr
+                        used = bool(it.val)
+                    elif it.k == 'branch' and it.term in ('ForStmt', 'CXXForRangeStmt', 'WhileStmt', 'DoStmt'):
+                        if used and skipped is None:
+                            skipped = tr
+                        used = False
+                    elif it.k == 'call' and norm(it.get('callee')) == 'std::max' and any((_lf(a.get('path')) or {}).get('REG._pos') == -1 for a in it.get('args', [])):
+                        used = False
+                if used and live(tr) and skipped is None:
+                    skipped = tr
+    if wf is not None:
+        ctx.ob(rid, wf, wf['key'], skipped is None, 'every used registration - parked or not - enters the retained-window maximum',
+               desc='push_lk leaves a used registration out of the retained-window computation: the values a woken subscriber is about to read are trimmed away', trace=fmt_trace(skipped) if skipped else None)
     for f in db.need('cocls::publisher::queue::get_value_lk')[:1]:
         rf = f
         for tr in H.traces(f):
@@ -453,7 +480,7 @@ def delivered_matches_position(ctx, db):
     for f, trs in traces_of(db, 'cocls::publisher::queue::get_value_lk', per_instance=False):
         trs = [t for t in trs if live(t)]
         ctx.paths(rid, len(trs))
-        sites = {}
+        sites = {}; newest = []
         for tr in trs:
             env = {}; reg = {'REG': 1}
             for n_, it in enumerate(tr):
@@ -477,12 +504,24 @@ def delivered_matches_position(ctx, db):
                     idx = {k: v for k, v in (idx or {}).items() if v} if idx is not None else None
                     exp = _lsub({'POS': 1, 'REG': -1, '': -1}, {'REG': reg}) if reg is not None else None
                     sites.setdefault(it.get('loc'), []).append((idx, exp, tr))
+                    # the mode that skips to the most recent value reads the head of the window, whatever the registration's position was
+                    # (a subscriber woken by a publish of several values stands on the first of them, not on the newest)
+                    recent_ = any((x.k == 'switch' and ((x.label or {}).get('text') or '').endswith('skip_to_recent')) or
+                                  (x.k == 'branch' and 'skip_to_recent' in (x.path or '') and '==' in (x.path or '') and x.val is True) for x in tr[:n_])
+                    if recent_:
+                        newest.append((idx == {} or idx == {'': 0}, tr, it.get('loc')))
         if not sites:
             raise Broken('get_value_lk returns no element of the window: anchor changed')
         for loc, lst in sorted(sites.items()):
             bad = next(((i, e, t) for (i, e, t) in lst if i is None or e is None or i != e), None)
             ctx.ob(rid, f, loc, bad is None, 'the index read is _pos - reg._pos - 1 on all %d path(s) through this read' % len(lst) + ('' if not bad else ' -- index %s, position says %s' % (_fmt_lin(bad[0]), _fmt_lin(bad[1]))),
                    desc='delivered element is not the one at the recorded position', trace=fmt_trace(bad[2]) if bad else None)
+
+
+        if newest:
+            badn = next((x for x in newest if not x[0]), None)
+            ctx.ob(rid, f, newest[0][2], badn is None, 'skip_to_recent delivers the head of the window (index 0) on all %d path(s)' % len(newest),
+                   desc='skip_to_recent delivers an element other than the most recent one', trace=fmt_trace(badn[1]) if badn else None)
 
 
 def _fmt_lin(l):
